@@ -200,7 +200,18 @@ def tlc_mc(module, env, workers=8, timeout=1800, emit=True, invariants=None, liv
             f.write('\n'.join(l for l in txt.splitlines() if 'HIST' not in l))
     json.dump(st, open(statf, 'w'))
     st['cached'] = False
+    prune_cache(os.path.join(BUILD, 'cache', 'mc'), keep=160)
     return st
+
+
+def prune_cache(d, keep):
+    """Model-checking results are keyed by spec hash: entries of superseded specs are dead weight."""
+    try:
+        ents = sorted((os.path.join(d, x) for x in os.listdir(d)), key=os.path.getmtime)
+    except OSError:
+        return
+    for old in ents[:-keep]:
+        shutil.rmtree(old, ignore_errors=True)
 
 
 VIOL_RE = re.compile(r'VIOL (\d+) (\d+) \{(.*)\}')
